@@ -354,7 +354,7 @@ CHILD = os.path.join(os.path.dirname(__file__), "repro_child.py")
 
 def _c19_batch(args):
     hashseed, cases = args
-    env = dict(os.environ); env["PYTHONHASHSEED"] = str(hashseed); env["PYTHONPATH"] = "/repo:/verif/harness"
+    env = dict(os.environ); env["PYTHONHASHSEED"] = str(hashseed); env["PYTHONPATH"] = "/repo:" + os.path.dirname(os.path.abspath(__file__))
     p = subprocess.run(["/venv/bin/python", CHILD], input=json.dumps(cases), capture_output=True, text=True, env=env, timeout=1200)
     if p.returncode != 0:
         return {"error": p.stderr[-2000:], "hashseed": hashseed}
